@@ -37,7 +37,11 @@ def per_call_signatures(b, outer_sig, first_args=()):
             callee = b.leaf_obj(t['to'])
             csig = callee_signature(callee, t)
             extra_pos, extra_named = 0, ()
-            if b.prog['route'] == 'via_helper' and not t.get('unres'):
+            if b.prog['route'] == 'self_attr_store_arg' and not t.get('unres'):
+                # the call is APPLY(self.fn0, ...) and what self.fn0 holds is unknown: forwarding to the helper as it is
+                csig = signatures.signature(b.g['APPLY'])
+                extra_pos = 1
+            elif b.prog['route'] == 'via_helper' and not t.get('unres'):
                 # the call is APPLY(callee, ...): what it forwards to is the helper forwarding to the callee, one more positional
                 csig = signatures.forwards(signatures.signature(b.g['APPLY']), csig)
                 extra_pos = 1
@@ -61,7 +65,7 @@ def _function_expectation(b, func_sig):
     import itertools
     from sigtools import signatures
     prog = b.prog
-    if prog['route'] in progs.UNRESOLVABLE:
+    if prog['route'] in progs.UNRESOLVABLE and prog['route'] != 'self_attr_store_arg':
         return None, 'callee cannot be resolved (%s)' % prog['route'], []
     pcs = per_call_signatures(b, func_sig)
     if not pcs:
@@ -117,7 +121,7 @@ def expected(b):
         outer_def = _own_def_signature(b.target)
         return finish(alts, why.replace('incompatible in some order', 'incompatible in some  order'), pcs,
                       lambda e: signatures.forwards(outer_def, e), ' (through the wrapping decorator)')
-    if route in ('self_method', 'self_attr', 'self_attr_store', 'classmethod_cls', 'self_shadow_nested'):
+    if route in ('self_method', 'self_attr', 'self_attr_store', 'self_attr_store_arg', 'classmethod_cls', 'self_shadow_nested'):
         fsig = signatures.signature(b.target.__func__)
         alts, why, pcs = _function_expectation(b, fsig)
         return finish(alts, why, pcs, lambda e: signatures.mask(e, 1), ', bound')
